@@ -476,6 +476,7 @@ class Exec:
         from . import models as M
         self.db = db
         self.user_models = []       # [(compiled regex, fn)] consulted first, in order
+        self._um_cache = {}
         self.std = M
         self.intmode = intmode
         self.loop_bound = loop_bound
@@ -502,6 +503,7 @@ class Exec:
 
     def model(self, pattern, fn):
         self.user_models.append((re.compile(pattern), fn))
+        self._um_cache = {}
 
     def fresh(self, prefix, bits=64, signed=False, sort=None):
         """fresh symbolic machine integer, deterministic name per path position"""
@@ -599,12 +601,15 @@ class Exec:
         """call a FnVal with evaluated args: user model > std model > real body"""
         self.stats.calls += 1
         name = fv.name
-        for rx, fn in self.user_models:
-            if rx.fullmatch(name):
+        ums = self._um_cache.get(name)
+        if ums is None:
+            ums = [(rx, fn) for rx, fn in self.user_models if rx.fullmatch(name)]
+            self._um_cache[name] = ums
+        for rx, fn in ums:
+            r = fn(self, name, args)
+            if r is not NotImplemented:
                 self.stats.models[rx.pattern] = self.stats.models.get(rx.pattern, 0) + 1
-                r = fn(self, name, args)
-                if r is not NotImplemented:
-                    return r
+                return r
         has_body = fv.key is not None and fv.key in self.db.by_key
         workspace = name.startswith('zksync_') or name.startswith('<zksync_')
         if not (workspace and has_body):
@@ -788,7 +793,8 @@ class Frame:
 
     def operand(self, o):
         if 'Copy' in o:
-            return self.place(o['Copy']).get()
+            v = self.place(o['Copy']).get()
+            return self.ex.std.copy_value(v) if isinstance(v, Agg) or hasattr(v, 'items') else v
         if 'Move' in o:
             return self.place(o['Move']).get()
         return self.const(o['Constant'])
@@ -1113,6 +1119,15 @@ class Frame:
                 f = self.operand(c['func'])
                 args = [self.operand(a) for a in c['args']]
                 if isinstance(f, Ref): f = f.get()
+                if isinstance(f, FnVal) and len(args) == 2 and isinstance(args[1], Agg) and args[1].kind == 'tuple' \
+                        and f.info.get('name', '').endswith(('FnOnce::call_once', 'FnMut::call_mut', 'Fn::call')):
+                    # "rust-call" ABI: the argument tuple is spread when the callee resolves to a closure body or a plain fn
+                    res = f.info.get('resolved') or {}
+                    if res.get('kind') == 'Item':
+                        if '{closure' in (res.get('name') or '') or isinstance(M_deref(args[0]), Agg) and M_deref(args[0]).kind == 'closure':
+                            args = [args[0]] + list(args[1].fields)
+                        else:
+                            args = list(args[1].fields)
                 if ex.trace_calls:
                     print('  ' * ex.depth + f'call {getattr(f, "name", f)}')
                 try:
@@ -1159,6 +1174,12 @@ class Frame:
         if isinstance(v, Uninit):
             return
         ex.call_key(info['key'], [ref], info['name'])
+
+
+def M_deref(v):
+    while isinstance(v, Ref):
+        v = v.get()
+    return v
 
 
 def explore(ex, body, max_paths=100000, budget_s=None):
